@@ -3,7 +3,7 @@ import re
 
 from lib import flow as FL
 from lib import teval
-from lib.facts import callee, callee_def
+from lib.facts import op_local, callee, callee_def
 
 META = {
     "level": "other",
@@ -190,6 +190,8 @@ def run(F, res, tier):
     calls = [FL.short(callee(t) or callee_def(t)) for b, t in hl.calls()]
     res.ob("R4", "highlight-same-search", "highlight_related runs the same usage search restricted to the current file (SearchScope::single_file)",
            "SearchScope::single_file" in calls and "FindUsages::all" in calls, where=hl.loc(), how=str([c for c in calls if "Search" in c or "FindUsages" in c]))
+    search_rejections_are_reviewed(F, res)
+    search_scope_narrowings_are_reviewed(F, res)
 
 
 def EF_constructions(F, adt):
@@ -335,3 +337,146 @@ def highlight_current_file(F, res, rule):
     res.ob(rule, "highlight/own-file-entry", "highlight_related takes the usage ranges of the request's own file out of the search result (a keyed lookup with fpos.file_id) "
            "and never walks the result for all files", keyed and not whole, where=hl.loc(),
            how="keyed lookup by fpos.file_id: %s; iterations over the whole result: %s" % (keyed, whole))
+
+
+FILTERING = ("filter", "filter_map", "find", "find_map", "take_while", "skip_while", "take", "skip", "step_by", "dedup", "dedup_by", "dedup_by_key",
+             "position", "rposition", "any", "all", "nth", "last", "rev", "retain", "truncate", "map_while", "scan", "flat_map", "flatten")
+# what decides, in the reviewed search: the definition has a name to look for (and is not a module); the hit lies in the part of the file the
+# scope names (inclusive at both ends); a token at the hit has exactly the name as its text and its parent is a name-like node; that node
+# classifies to the definition searched for; the sink asked to stop. Everything else below is plumbing (iteration, tracing, Option tests).
+SEARCH_DECIDES = {
+    "semantics::classify_node": "the candidate's own classification",
+    "PartialEq::eq": "the classification equals the definition searched for / the token's text equals the name",
+    "PartialEq::ne": "the same tests, negated",
+    "TextRange::contains_inclusive": "the hit lies inside the range the scope gives for this file (both ends included: a name at the very end of a function)",
+    "Option::and_then": "the token's parent is a name-like node (TypeNameOrName::cast)",
+    "TypeNameOrName::cast": "the token's parent is a name-like node",
+    "AstNode::cast": "the token's parent is a name-like node",
+    "adaptor:Iterator::filter_map": "the range test, as an adaptor",
+    "adaptor:Iterator::filter": "the range test, as an adaptor",
+    "adaptor:Iterator::find": "the token whose text is the name, among the (at most two) tokens at the offset",
+    "Definition::name": "a definition without a name has no textual hits",
+}
+SEARCH_PLUMBING = ("Iterator::next", "IntoIterator::into_iter", "Option::is_none", "Option::is_some", "Try::branch", "const", "multi", "arg",
+                   "Interest::is_never", "__macro_support::__is_enabled", "dispatcher::has_been_set", "PartialOrd::le", "PartialOrd::lt",
+                   "Lazy::force", "Deref::deref", "unknown", "agg", "promoted")
+
+
+def decision_names(F, f):
+    """what decides control in f: for every switch the call (or comparison of calls) the tested value comes from; the filtering iterator
+    adaptors f applies; and, when f is a closure, what its answer is computed by"""
+    d = FL.Defs(f)
+    out = set()
+
+    def nm(o, depth=0):
+        k = o.get("k")
+        if depth > 6:
+            return "?"
+        if k == "call":
+            return FL.short(callee(o["t"]) or callee_def(o["t"]) or "?")
+        if k == "field":
+            return nm(o["base"], depth + 1)
+        if k == "rv":
+            rv = o["rv"]
+            if rv["k"] == "discr":
+                return nm(d.origin_place(rv["place"]), depth + 1)
+            if rv["k"] == "bin":
+                return "%s(%s, %s)" % (rv["op"], nm(d.origin_op(rv["a"]), depth + 1), nm(d.origin_op(rv["b"]), depth + 1))
+            if rv["k"] == "un":
+                return nm(d.origin_op(rv["a"]), depth + 1)
+            return "rv:" + rv["k"]
+        if k == "arg":
+            return "arg"
+        return k or "unknown"
+    for b in sorted(f.reachable()):
+        t = f.term(b)
+        if t["k"] == "switch":
+            l = op_local(t["op"])
+            out.add(nm(d.origin(l)) if l is not None else "const")
+    for b, t in f.calls():
+        c = FL.short(callee(t) or callee_def(t) or "")
+        if c.rsplit("::", 1)[-1] in FILTERING:
+            out.add("adaptor:" + c)
+    if "{closure" in f.path and (f.d.get("output") or "") in ("bool",) or "{closure" in f.path and (f.d.get("output") or "").startswith("core::option::Option"):
+        o = d.origin(0)
+        for oc in ([o] if o.get("k") != "multi" else [{"k": "call", "t": dd[3], "bb": dd[0]} if dd[2] == "call" else d.origin_rv(dd[3]["rv"], 0, dd[0], 0, ()) for dd in o["defs"]]):
+            n_ = nm(oc)
+            if n_ not in ("agg", "const", "arg", "rv:agg", "unknown", "multi"):
+                out.add(n_)
+    return out
+
+
+def search_rejections_are_reviewed(F, res, rule="R8"):
+    """R8: the usage search rejects a textual hit for the reviewed reasons only. Between the text search and the sink a hit can be
+    dropped by a range test, by the token test, by the cast to a name-like node and by the classifier; every one of these is a
+    decision (a switch on a call's answer, a filtering adaptor, the answer of a closure handed to one) in FindUsages or a function
+    of its module it calls. The decisions found are compared with the reviewed inventory by the function they ask: a new kind of
+    decision - a second range test with other bounds, a word-boundary pre-filter, a length test - is a way to lose a reference
+    that references / rename / highlight would all miss in the same way, so no sibling comparison notices it. Verifier-style:
+    it reports a new decision even when it is harmless."""
+    unit = [p for p in sorted(F.fns) if p.startswith("ide::def::search::FindUsages::") and F.fns[p].blocks and
+            (p.split("FindUsages::", 1)[1].split("::", 1)[0] in ("search", "all") or "found_" in p)]
+    # helpers of crate ide / syntax the unit calls that are not on the reviewed list take part too
+    seen = set(unit)
+    for p in list(unit):
+        for b, t in F.fns[p].calls():
+            c = callee(t) or ""
+            if c.startswith(("ide::def::search::", "syntax::")) and c in F.fns and F.fns[c].blocks and c not in seen and \
+                    FL.short(c) not in SEARCH_DECIDES and "ast::" not in c:
+                seen.add(c)
+                unit.append(c)
+    found = {}
+    for p in unit:
+        for n_ in decision_names(F, F.fns[p]):
+            found.setdefault(n_, []).append(FL.short(p))
+    unknown = {}
+    for n_, where in found.items():
+        parts = [x for x in __import__("re").split(r"[(), ]+", n_) if x and x not in ("Eq", "Ne", "Lt", "Le", "Gt", "Ge", "Not", "BitAnd", "BitOr")]
+        rest = [x for x in parts if x not in SEARCH_DECIDES and not x.startswith(SEARCH_PLUMBING) and x not in SEARCH_PLUMBING and
+                ("adaptor:" + x) not in SEARCH_DECIDES]
+        if n_ in SEARCH_DECIDES or not rest:
+            continue
+        unknown[n_] = sorted(set(where))
+    have = set(found)
+    res.floor("functions of the usage search", len(unit), 8)
+    res.ob(rule, "search/rejections-reviewed", "every decision between a textual hit and the sink is one of the reviewed ones (range of the scope, token text, "
+           "name-like parent, classification, the sink's answer)", not unknown, where="crates/ide/src/def/search.rs",
+           how="%d decisions in %d functions, all reviewed: %s" % (len(found), len(unit), sorted(n_ for n_ in found if n_ in SEARCH_DECIDES)) if not unknown else
+           "not in the reviewed inventory: %s" % unknown)
+    core = {"semantics::classify_node", "TextRange::contains_inclusive"}
+    res.ob(rule, "search/reviewed-decisions-present", "the range test of the scope and the classification of the candidate are still what decides",
+           core <= have, where="crates/ide/src/def/search.rs", how="present: %s" % sorted(core & have))
+
+
+SCOPE_DECIDES = {
+    "Definition::module": "a definition without a module (a built-in) has nothing to search",
+    "arg": "a local is searched for in its own file only (the variant of the definition)",
+}
+
+
+def search_scope_narrowings_are_reviewed(F, res, rule="R9"):
+    """R9: the files a definition is searched in are narrowed for the reviewed reasons only. The scope of a search is every module
+    file of every package of the graph plus the source root of the definition; it shrinks to one file for a local and to nothing
+    for a definition without a module. Any other decision or filter in the functions that build a scope (only the packages being
+    worked on, only the modules that import the declaring module, only the reverse dependencies) drops files in which the name can
+    still be written - a field of a record that reached the module through a third one needs no import, a fetched package uses
+    another fetched package - and go-to-definition from those uses still finds the declaration. Verifier-style, like R8."""
+    unit = [p for p in sorted(F.fns) if F.fns[p].blocks and (p.startswith("ide::def::search::SearchScope::") or
+            p.startswith("ide::def::semantics::Definition::search_scope"))]
+    if not any(p.startswith("ide::def::semantics::Definition::search_scope") for p in unit):
+        res.anchor_missing(rule, "Definition::search_scope")
+        return
+    found = {}
+    for p in unit:
+        for n_ in decision_names(F, F.fns[p]):
+            found.setdefault(n_, []).append(FL.short(p))
+    unknown = {}
+    for n_, where in found.items():
+        parts = [x for x in re.split(r"[(), ]+", n_) if x and x not in ("Eq", "Ne", "Lt", "Le", "Gt", "Ge", "Not", "BitAnd", "BitOr")]
+        rest = [x for x in parts if x not in SCOPE_DECIDES and not x.startswith(SEARCH_PLUMBING) and x not in SEARCH_PLUMBING]
+        if n_ in SCOPE_DECIDES or not rest:
+            continue
+        unknown[n_] = sorted(set(where))
+    res.ob(rule, "search-scope/narrowings-reviewed", "nothing narrows the files a definition is searched in but the reviewed tests (no module: nothing; a "
+           "local: its own file)", not unknown, where="crates/ide/src/def/search.rs",
+           how="%d decisions in %d functions: %s" % (len(found), len(unit), sorted(found)) if not unknown else "not in the reviewed inventory: %s" % unknown)
